@@ -78,15 +78,15 @@ Judge(ev) ==
       [] ev.op = "mix" ->
             \* two money amounts, no converter active
             IF ev.c1 = ev.c2
-            THEN CASE ev.f \in {"add", "sub"} -> J(ev.obs.st = "ok" /\ ev.obs.cur = ev.c1 /\ ev.obs.t = "Money" /\ ev.obs.ongrid /\ ev.obs.exact)
+            THEN (CASE ev.f \in {"add", "sub"} -> J(ev.obs.st = "ok" /\ ev.obs.cur = ev.c1 /\ ev.obs.t = "Money" /\ ev.obs.ongrid /\ ev.obs.exact)
                    [] ev.f = "div" -> J(ev.obs.st = "num" /\ ev.obs.exact)
                    [] ev.f = "convert" -> J(ev.obs.st = "ok" /\ ev.obs.cur = ev.c1 /\ ev.obs.exact)
                    [] ev.f = "mul" -> J(IsErr(ev.obs, "UndefinedResultError"))
-                   [] OTHER -> J(ev.obs.st = "bool" /\ ev.obs.exact)
-            ELSE CASE ev.f \in {"add", "sub", "div", "lt", "le", "gt", "ge", "convert"} -> J(IsErr(ev.obs, "UnitConversionError"))
+                   [] OTHER -> J(ev.obs.st = "bool" /\ ev.obs.exact))
+            ELSE (CASE ev.f \in {"add", "sub", "div", "lt", "le", "gt", "ge", "convert"} -> J(IsErr(ev.obs, "UnitConversionError"))
                    [] ev.f = "eq" -> J(ev.obs.st = "bool" /\ ~ev.obs.b)
                    [] ev.f = "ne" -> J(ev.obs.st = "bool" /\ ev.obs.b)
-                   [] ev.f = "mul" -> J(IsErr(ev.obs, "UndefinedResultError"))
+                   [] ev.f = "mul" -> J(IsErr(ev.obs, "UndefinedResultError")))
       [] ev.op = "iso" ->
             IF ev.code \notin IsoCodes THEN J(ev.obs.st = "err" /\ ~ev.obs.registered)
             ELSE LET rec == IsoRec(ev.code) IN
@@ -109,6 +109,13 @@ Judge(ev) ==
                        /\ QEq(Q(ev.obs.q), IF ev.sf.given THEN Q(ev.sf.q)
                                            ELSE [s |-> 1, n |-> BOne, d |-> BPow10(IF ev.minor.given THEN ev.minor.v ELSE 2)]))
                 ELSE J(ev.obs.st = "err" /\ ~ev.obs.registered /\ ~ev.obs.parses /\ ~ev.obs.listed /\ ev.obs.later_ok)
+      [] ev.op = "construct" ->
+            \* Money(amount, currency with smallest fraction sf): the nearest multiple of sf, rounded once (C05/C08)
+            LET a == Q(ev.amt)  sf == Q(ev.sf) IN
+            IF ev.obs.st # "ok" THEN "bad:rejected"
+            ELSE IF ~ev.obs.ongrid THEN "bad:off-grid"
+            ELSE J(IsRounded(BMul(a.n, sf.d), BMul(a.d, sf.n), Lim(ev.obs.R), ev.mode, a.s = -1)
+                   /\ (((a.s = -1) = ev.obs.neg) \/ Lim(ev.obs.R) = <<>>))
       [] ev.op = "isocount" -> J(ev.n = Len(Iso) /\ Len(Iso) = 167)
 
 Init == i = 1
